@@ -330,11 +330,17 @@ def install_late(spec: Spec):
                     RaisesClause('Exception', label='unexpected', origin='call:EventBus.process_event/unexpected')])
 
     # ------------------------------------------------------------------ result accessors (C11 C12)
-    spec.fn('EventResult.__await__.wait', file=M, qual='EventResult.__await__.<locals>.wait_for_handler_to_complete_and_return_result', is_async=True, trusted=True,
-            params={'self': 'EventResult'}, returns='any', interference='handlers',
-            raises=[RaisesClause('Exception', label='recorded_error_or_timeout'), RaisesClause('CancelledError', label='cancelled')],
-            notes='awaiting a single EventResult: waits for its handler-completed signal (bounded by its timeout), re-raises its recorded error, else returns its value; assumed. '
-                  'Recorded errors are taken to be Exceptions (a recorded CancelledError would be re-raised past `except Exception`)')
+    spec.fn('EventResult.__await__.wait', file=M, qual='EventResult.__await__.<locals>.wait_for_handler_to_complete_and_return_result', is_async=True,
+            params={}, free={'self': 'EventResult'}, returns='any', interference='results', cancel_must_propagate=True,
+            requires=[('in_loop', 'loop_running()', [])],
+            assume_asserts=['self.handler_completed_signal is not None'],
+            modifies=[('_handler_completed_signal', 'self'), ('ev_set', '*'), ('task_done', '*')],
+            ensures=[('returns_the_recorded_value', 'result is self.result', ['C12']),
+                     ('no_recorded_error', "not (self.status == 'error' and self.error is not None)", ['C11'])],
+            raises=[RaisesClause('TimeoutError', label='handler_not_finished_in_time', origin='raise@', when='self.timeout is not None'),
+                    RaisesClause('BaseException', label='recorded_error', origin='raise@', tags=['C11'],
+                                 ensures=[('is_the_original_object', "isinstance(raised, TimeoutError) or raised is self.error", ['C11'])]),
+                    RaisesClause('CancelledError', label='cancelled')])
     spec.methods[('EventResult', '__await__')] = 'EventResult.__await__.wait'
 
     def include_pure(ex, n):
@@ -355,13 +361,18 @@ def install_late(spec: Spec):
             locals={'event_results': 'dict[str,EventResult]', 'included_results': 'dict[str,EventResult]', 'error_results': 'dict[str,EventResult]',
                     'event_results_by_handler_id': 'dict[str,EventResult]'},
             requires=[('in_loop', 'loop_running()', [])],
-            modifies=[('_event_completed_signal', 'self'), ('ev_set', '*'), ('task_done', '*')],
+            modifies=[('_event_completed_signal', 'self'), ('_handler_completed_signal', '*'), ('ev_set', '*'), ('task_done', '*')],
             callsites={'include(event_result)': {'pure': include_pure}},
             ensures=[('not_empty_when_raise_if_none', 'implies(raise_if_none, len(result) > 0)', ['C12'])],
             raises=[RaisesClause('CancelledError', label='cancelled'),
                     RaisesClause('TimeoutError', label='not_completed_in_time', origin='asyncio.wait_for'),
                     RaisesClause('BaseException', label='requested_raise', tags=['C11', 'C12'], origin='raise@',
                                  ensures=[('only_if_asked', 'raise_if_any or raise_if_none', ['C11', 'C12'])]),
+                    # a recorded error that is not an Exception (the CancelledError bubus records on interrupted handlers) is re-raised by
+                    # `await event_result` past `except Exception`, whatever raise_if_any says; such results exist only on events whose
+                    # completion is never signalled today (second witness of F5), so the accessor cannot get this far: declared, not a finding
+                    RaisesClause('BaseException', label='recorded_non_exception_error', origin='call:EventResult.__await__.wait/recorded_error',
+                                 ensures=[('not_an_exception', 'not isinstance(raised, Exception)', ['C11'])]),
                     RaisesClause('KeyError', label='dict_comprehension', caller_only=True)])
     spec.methods[('BaseEvent', 'event_results_filtered')] = 'BaseEvent.event_results_filtered'
 
